@@ -56,6 +56,17 @@ def systems(tier):
         out.append(dict(types=["CH6"], molecules=[("CH6", 1)], box=BOX, grid=GRID, dist=[a, b], kwargs=dict(nrewind=3, maxiter=4)))
     out.append(dict(types=["CH6"], molecules=[("CH6", 1)], box=BOX, grid=GRID, pers=dict(lp=1.0, start=0, stop=5), dist=[(0, 2, 1.0, 0.0)],
                     kwargs=dict(nrewind=3, maxiter=4)))
+    # combinations of restraint kinds on one molecule
+    sph = dict(kind="sphere", resname="S", start=1, stop=7, inout="in", centre=c, params=(1.6,))
+    cyl = dict(kind="cylinder", resname="S", start=2, stop=5, inout="out", centre=c, params=(0.4, 0.4))
+    rec = dict(kind="rectangle", resname="S", start=1, stop=4, inout="in", centre=c, params=(1.5, 1.0, 1.5))
+    rwx = dict(resname="S", start=2, stop=7, normal=(1.0, 0.0, 0.0), angle=95.0)
+    combos = [dict(geos=[sph, cyl]), dict(geos=[sph, rec]), dict(geos=[sph], rw=rwx), dict(geos=[cyl], rw=rwx),
+              dict(geos=[sph], dist=[(0, 5, 1.5, 0.3)]), dict(rw=rwx, dist=[(0, 5, 1.5, 0.3)]),
+              dict(geos=[rec], rw=rwx, dist=[(0, 4, 2.0, 0.3)]), dict(geos=[sph], pers=dict(lp=1.0, start=0, stop=5))]
+    for cmb in combos:
+        grid = ([[0.75, 2.0, 2.0]] + GRID) if "rw" in cmb else GRID
+        out.append(dict(types=["CH6"], molecules=[("CH6", 1)], box=BOX, grid=grid, kwargs=dict(nrewind=3, maxiter=4), **cmb))
     for typ in ("RING3", "RING4", "RING5", "RING6"):
         for tol in (0.0, 0.3):
             # rings need the face-diagonal directions (60 degree angles exist among them) to be closable within one step
